@@ -1320,12 +1320,25 @@ func (x *Exec) anchor(st *State, where string, pos token.Pos, ord int) {
 	}
 	// pinned (property-level) assertions at the same anchor
 	for _, pb := range x.pinned {
+		if !caseSelected(pb, x.caseVals, x.caseLbl) {
+			continue
+		}
 		for i, a := range pb.Anchors {
-			if a.Anchor != where || a.Kind != "assert" {
+			if a.Anchor != where || (a.Kind != "assert" && a.Kind != "use") {
 				continue
 			}
 			env := x.specEnvAt(st, pos, ord)
 			env.lets = append(append([]LetDef{}, env.lets...), pb.Lets...)
+			if a.Kind == "use" {
+				n0 := len(x.obls)
+				x.useLemma(st, env, a.Clause, "pinned "+where, i)
+				for _, o := range x.obls[n0:] {
+					for prop := range pb.Props {
+						o.Prop = prop
+					}
+				}
+				continue
+			}
 			g := asTerm(x.evalSpec(env, a.Clause.E))
 			for prop := range pb.Props {
 				for j, cj := range splitConj(g) {
@@ -1333,6 +1346,8 @@ func (x *Exec) anchor(st *State, where string, pos token.Pos, ord int) {
 					o.Prop = prop
 				}
 			}
+			// proved separately (its failure is reported by this same check); available to what follows
+			st.assume(g, "checked:pinned-assert")
 		}
 	}
 }
